@@ -28,7 +28,7 @@ import os
 import shutil
 import tempfile
 
-from vf.engines.fsfault import Crash, FaultFS, crash_points, restore_tree, snapshot_tree
+from vf.engines.fsfault import Crash, FaultFS, crash_points, report_escapes, restore_tree, selftest_or_inconclusive, snapshot_tree
 
 LEVEL = "fault_enumeration"
 ENGINE = "E3-fsfault"
@@ -123,7 +123,8 @@ class Base:
                 ctx.count("old_kept" if got == self.old else "new_kept")
             else:
                 ctx.count("completed_new_verified")
-        self.load_equal(point, crashed, got)
+        with FaultFS(self.root):
+            self.load_equal(point, crashed, got)
         with open(self.sentinel, "rb") as f:
             if f.read() != b"sentinel-%d" % self.case_id:
                 ctx.violation("unrelated-file-damaged", "a sibling file was modified", self.witness(point))
@@ -139,7 +140,8 @@ class Base:
     def run(self):
         ctx = self.ctx
         try:
-            self.prepare()
+            with FaultFS(self.root):  # unarmed: containment guard for the crash-free preparation
+                self.prepare()
             if self.old is None:
                 ctx.count("target_missing_before")
             self.pristine = snapshot_tree(self.dir)
@@ -180,7 +182,8 @@ class Base:
                 self.check(point, True)
                 # reboot: the same operation, crash-free, on the left-over directory
                 try:
-                    self.op()
+                    with FaultFS(self.root):
+                        self.op()
                     ctx.count("redo_after_crash")
                     if self.compare_bytes and self.read_target() != self.new:
                         ctx.violation("redo-after-crash-wrong-content", "repeating the operation after the crash did not produce the new content", self.witness(point))
@@ -189,6 +192,7 @@ class Base:
             ctx.sample({"kind": self.kind, "params": self.params, "calls": [(k, kind, pend) for k, kind, _, pend in count.log], "crash_points": len(pts)})
         finally:
             shutil.rmtree(self.root, ignore_errors=True)
+            report_escapes(ctx, self.case_id)
 
 
 class SetContent(Base):
@@ -368,6 +372,8 @@ def run_case(ctx, i):
 
 
 def run(ctx):
+    if not selftest_or_inconclusive(ctx):
+        return
     for i in ctx.cases(300, 30000):
         run_case(ctx, i)
 
